@@ -63,7 +63,7 @@ fn corpus(tier: Tier) -> Vec<(String, PProblem)> {
 }
 
 /// Runs the repository checker on (problem JSON, matrices, solution JSON).
-fn run_checker(problem: &Value, matrices: &[Value], solution: &Value) -> Result<Result<(), Vec<String>>, String> {
+pub fn run_checker(problem: &Value, matrices: &[Value], solution: &Value) -> Result<Result<(), Vec<String>>, String> {
     let (p, m, s) = (problem.to_string(), matrices.iter().map(|m| m.to_string()).collect::<Vec<_>>(), solution.to_string());
     catch(move || -> Result<Result<(), Vec<String>>, String> {
         use vrp_pragmatic::format::problem::PragmaticProblem;
@@ -390,7 +390,8 @@ fn judge_pair(family: &str, problem: &PProblem, cfg: &SolveCfg, report: &mut Rep
     if family == "reqbreak" {
         base_findings.retain(|f| f.rule.starts_with("C02:") || f.rule.starts_with("C01:required-break") || f.rule == "C01:capacity");
     }
-    if family == "cluster" {
+    let clustered = family == "cluster" || problem.clustering.is_some();
+    if clustered {
         base_findings.retain(|f| f.rule.starts_with("C02:") || f.rule.starts_with("C03:commute-") || f.rule == "C03:statistic-total" || f.rule == "C03:statistic-commuting" || f.rule == "C03:statistic-parking");
     }
     if !base_findings.is_empty() {
@@ -440,8 +441,8 @@ fn judge_pair(family: &str, problem: &PProblem, cfg: &SolveCfg, report: &mut Rep
     if family == "reqbreak" {
         return;
     }
-    let mut all_mutants = if family == "cluster" { commute_mutants(problem, &solved.json) } else { mutants(problem, &solved.json) };
-    if family != "cluster" {
+    let mut all_mutants = if clustered { commute_mutants(problem, &solved.json) } else { mutants(problem, &solved.json) };
+    if !clustered {
         all_mutants.extend(twin_split(problem, cfg));
     }
     for m in all_mutants {
